@@ -81,4 +81,9 @@ def main():
 
 
 if __name__ == "__main__":
-    sys.exit(main())
+    try:
+        rc = main()
+    except BaseException as e:  # noqa: BLE001 - a crash of the harness is never a verdict
+        print(json.dumps({"identical": None, "harness_crash": f"{type(e).__name__}: {e}"}))
+        rc = 2
+    sys.exit(rc)
